@@ -54,7 +54,7 @@ class BuildIndices(Family):
     serves = ["C02", "C03", "C06", "C19"]
     timeout_ms = 60000
     assumed = ["numpy.flatnonzero contract (positions strictly increasing, rank function)", "numpy fancy assignment (witness form)",
-               "numpy.cumsum = prefix sums", "lemma (unproved, standard): every flat position j < S'(n) lies in exactly one row (partition point of a sorted sequence)"]
+               "numpy.cumsum = prefix sums", "lemma partition-point (existence of the row containing a flat position; proved by induction in vf.proofs.lemmas)"]
 
     def kinds(self):
         return ["sym", "None"]
@@ -166,3 +166,86 @@ class BuildIndices(Family):
 
     def nontrivial(self, case):
         return 0 in case["lengths"]
+
+
+@register
+class FlatIndicesFast(Family):
+    """RaggedView._get_flat_indices_fast (used when the view is known to have no empty row, i.e. by Counter.count):
+    idx[S'(r) + c] = start(r) + c.  Scatter-then-scan with invariant  C(j) = start(rho(j)) + j - S'(rho(j))."""
+    name = "RaggedView._get_flat_indices_fast"
+    qualname = "npstructures.raggedshape:RaggedView._get_flat_indices_fast"
+    serves = ["C12", "C02", "C19"]
+    timeout_ms = 30000
+    assumed = ["callee contract RaggedView.get_shape (proved in vf.proofs.derived)", "numpy fancy assignment (witness form)", "numpy.cumsum(out=)",
+               "numpy.diff", "lemma partition-point (proved by induction in vf.proofs.lemmas)"]
+
+    def run(self, ctx, kind):
+        from npstructures.raggedshape import RaggedView
+        from .ragged import sym_view
+        v = sym_view(ctx)
+        n, VS, L = v.n, v.S, v.L
+        ctx.assume(n >= 1)
+        ctx.assume_forall("requires: no empty row", lambda r: z3.Implies(z3.And(0 <= r, r < n), L(r) >= 1))
+        T = sym_shape(ctx, "to")
+        ctx.assume(T.n == n)
+        ctx.assume_forall("shape of the view's lengths", lambda r: z3.Implies(z3.And(0 <= r, r < n), T.L(r) == L(r)))
+        S = T.S
+        size = S(n)
+        rho = z3.Function(fresh_name("rho"), z3.IntSort(), z3.IntSort())
+        ctx.assume_forall("rho", lambda j: z3.Implies(z3.And(0 <= j, j < size), z3.And(0 <= rho(j), rho(j) < n, S(rho(j)) <= j, j < S(rho(j) + 1))))
+        ctx.add_index(z3.IntVal(0), z3.IntVal(1), n, n - 1)
+        old = RaggedView.__dict__["get_shape"]
+        RaggedView.get_shape = lambda self_: T.obj
+        try:
+            idx, shp = v.obj._get_flat_indices_fast()
+        finally:
+            RaggedView.get_shape = old
+        ctx.prove("post.shape returned and marked as free of empty rows", z3.BoolVal(shp is T.obj and shp.empty_removed is True))
+        ctx.prove("post.len==S'(n)", dim_term(idx.shape_[0]) == size)
+        ps = ctx.ghost["prefix_sums"][-1]["ps"]
+        sc = ctx.ghost["scatters"][-1]
+        C = lambda j: ps(j + 1)
+        Inv = lambda j: C(j) == VS(rho(j)) + j - S(rho(j))
+        Z = z3.IntVal(0)
+        r0 = rho(Z)
+        ctx.prove_then_assume("base.lemma: position 0 lies in row 0", r0 == 0, pool=[Z, r0, r0 + 1, z3.IntVal(1), n])
+        ctx.prove_then_assume("base: Inv(0)", Inv(Z), pool=[Z, z3.IntVal(1), r0, sc["wit"](Z), sc["wit"](Z) + 1])
+        j = z3.Int("j")
+        ctx.skolem(z3.And(0 <= j, j + 1 < size))
+        ctx.assume(Inv(j))
+        q, r = rho(j), rho(j + 1)
+        w = sc["wit"](j + 1)
+        same = q == r
+        ctx.prove_then_assume("step.same-row.lemma: j+1 is no row start: B[j+1] == 1", z3.Implies(same, ps(j + 2) == ps(j + 1) + 1),
+                              pool=[j, j + 1, j + 2, q, q + 1, w, w + 1, w + 2, Z])
+        ctx.prove("step.same-row: Inv(j) => Inv(j+1)", z3.Implies(same, Inv(j + 1)), pool=[j, j + 1, q])
+        ctx.prove_then_assume("step.next-row.lemma1: r == q+1 starts at j+1", z3.Implies(z3.Not(same), z3.And(r == q + 1, S(r) == j + 1)),
+                              pool=[j, j + 1, q, q + 1, r, r + 1])
+        ctx.prove_then_assume("step.next-row.lemma2: B[j+1] == start(r) - start(q) - L(q) + 1", z3.Implies(
+            z3.Not(same), ps(j + 2) == ps(j + 1) + VS(r) - VS(q) - L(q) + 1), pool=[j + 1, j + 2, q, q + 1, r, r + 1, w, w + 1, w + 2, Z])
+        ctx.prove("step.next-row: Inv(j) => Inv(j+1)", z3.Implies(z3.Not(same), Inv(j + 1)), pool=[j, j + 1, q, q + 1, r])
+        ctx.assume_forall("Inv (by induction)", lambda t: z3.Implies(z3.And(0 <= t, t < size), Inv(t)))
+        rr = T.row("row")
+        c = z3.Int("c")
+        ctx.skolem(z3.And(0 <= c, c < L(rr)))
+        p = S(rr) + c
+        ctx.prove_then_assume("post.lemma: rho(S'(r)+c) == r", rho(p) == rr, pool=[c, p, rr, rr + 1, rho(p), rho(p) + 1])
+        ctx.prove("post.idx[S'(r)+c] == start(r) + c", idx.get(p) == VS(rr) + c, pool=[p, rr, c])
+
+    def concrete(self, case):
+        from npstructures.raggedshape import RaggedView
+        ls = [l + 1 for l in case["lengths"]]
+        if not ls:
+            return None
+        vs = [100 + 37 * i for i in range(len(ls))]
+        v = RaggedView(np.array(vs), np.array(ls))
+        v.empty_removed = True
+        idx, _ = v.get_flat_indices()
+        exp = [s + c for s, l in zip(vs, ls) for c in range(l)]
+        if np.asarray(idx).tolist() != exp:
+            return {"msg": f"_get_flat_indices_fast(starts={vs}, lengths={ls}) = {np.asarray(idx).tolist()}", "sig": "wrong:_get_flat_indices_fast"}
+
+    def bounded_cases(self, tier, seed):
+        from ..bounded.common import length_vectors
+        for ls in length_vectors(4, 2, 1):
+            yield {"lengths": ls}
